@@ -484,3 +484,13 @@ def run(facts, rep, ctx):
     _run_before_round6(facts, rep, ctx)
     from . import round6
     round6.ef10(facts, rep)
+
+
+_run_before_round7 = run
+
+
+def run(facts, rep, ctx):
+    """rules added in the sixth seeding round (rules/round7.py)"""
+    _run_before_round7(facts, rep, ctx)
+    from . import round7
+    round7.gd12(facts, rep)
